@@ -11,11 +11,17 @@
  *   arr  the library's own mpt_array_traits(): elements are arrays that
  *        reference one of NV inner buffers; the inner reference counts are
  *        the observation (the driver holds one reference on each).
+ *   meta mpt_meta_reference_traits(): elements are references to one of NV
+ *        harness metatypes whose reference counters are the observation.
+ *   idn  mpt_identifier_traits(): elements are identifiers named from a table
+ *        (short inline names and a long heap allocated one); names are read
+ *        back, allocation faults are left to ASan.
  * Offsets/lengths are in elements.  No judgement here.
  */
 #include "drv.h"
 
 #include "types.h"
+#include "meta.h"
 #include "array.h"
 
 #include "array/buffer_alloc.c"
@@ -30,8 +36,10 @@
 
 struct elem { uint32_t magic, id, val, pad; };
 
+enum { K_REC, K_ARR, K_META, K_IDN };
 static MPT_STRUCT(array) arr[MAXH];
-static int nh, nv, kind_arr;
+static int nh, nv, kind;
+#define kind_arr (kind == K_ARR)
 static size_t esize;
 static const MPT_STRUCT(type_traits) *etraits;
 
@@ -81,10 +89,56 @@ static long inner_index(const MPT_STRUCT(buffer) *b)
 	return -1;
 }
 
+/* meta kind: harness metatypes with visible reference counters */
+struct hmeta { MPT_INTERFACE(metatype) mt; long refs; };
+static struct hmeta metas[MAXV + 1];
+static int hm_conv(MPT_INTERFACE(convertable) *c, MPT_TYPE(type) t, void *p) { (void) c; (void) t; (void) p; return MPT_ERROR(BadType); }
+static void hm_unref(MPT_INTERFACE(metatype) *m) { ((struct hmeta *) m)->refs--; }
+static uintptr_t hm_addref(MPT_INTERFACE(metatype) *m) { return (uintptr_t) ++((struct hmeta *) m)->refs; }
+static MPT_INTERFACE(metatype) *hm_clone(const MPT_INTERFACE(metatype) *m) { (void) m; return 0; }
+static const MPT_INTERFACE_VPTR(metatype) hm_vptr = { { hm_conv }, hm_unref, hm_addref, hm_clone };
+static long meta_index(const MPT_INTERFACE(metatype) *m)
+{
+	int k;
+	if (!m) return 0;
+	for (k = 1; k <= nv; k++) if (&metas[k].mt == m) return k;
+	return -1;
+}
+/* idn kind: names by value */
+static const char *idn_names[MAXV + 1] = {
+	"", "a", "the-second-name-is-too-long-for-inline-storage", "three67", "4", "five-five-five-five-five-five-five", "6", "7", "8"
+};
+static long idn_index(const MPT_STRUCT(identifier) *id)
+{
+	int k;
+	const char *d;
+	if (!id->_len) return 0;
+	d = (const char *) mpt_identifier_data(id);
+	for (k = 1; k <= MAXV; k++) {
+		size_t l = strlen(idn_names[k]);
+		if (d && id->_len == l + 1 && !memcmp(d, idn_names[k], l)) return k;
+		if (d && id->_len == l && !memcmp(d, idn_names[k], l)) return k;
+	}
+	return -1;
+}
+static void idn_make(MPT_STRUCT(identifier) *id, unsigned v)
+{
+	mpt_identifier_init(id, sizeof(*id));
+	if (v >= 1 && v <= MAXV) mpt_identifier_set(id, idn_names[v], -1);
+}
+
 /* caller side construction of an element with value v (not a traits call) */
 static void make_elem(void *ptr, unsigned v)
 {
-	if (kind_arr) {
+	if (kind == K_META) {
+		MPT_INTERFACE(metatype) **m = (MPT_INTERFACE(metatype) **) ptr;
+		*m = (v >= 1 && v <= (unsigned) nv) ? &metas[v].mt : 0;
+		if (*m) (*m)->_vptr->addref(*m);
+	}
+	else if (kind == K_IDN) {
+		idn_make((MPT_STRUCT(identifier) *) ptr, v);
+	}
+	else if (kind_arr) {
 		MPT_STRUCT(array) *a = (MPT_STRUCT(array) *) ptr;
 		a->_buf = (v >= 1 && v <= (unsigned) nv) ? inner[v] : 0;
 		if (a->_buf) a->_buf->_vptr->addref(a->_buf);
@@ -103,7 +157,12 @@ static void *make_src(const uint8_t *vals, size_t n)
 	size_t i;
 	uint8_t *mem = (uint8_t *) calloc(n + 1, esize);
 	for (i = 0; i < n; i++) {
-		if (kind_arr) {
+		if (kind == K_META) {
+			unsigned v = vals[i];
+			*((MPT_INTERFACE(metatype) **) (mem + i * esize)) = (v >= 1 && v <= (unsigned) nv) ? &metas[v].mt : 0;
+		} else if (kind == K_IDN) {
+			idn_make((MPT_STRUCT(identifier) *) (mem + i * esize), vals[i]);
+		} else if (kind_arr) {
 			unsigned v = vals[i];
 			((MPT_STRUCT(array) *) (mem + i * esize))->_buf = (v >= 1 && v <= (unsigned) nv) ? inner[v] : 0;
 		} else {
@@ -112,6 +171,15 @@ static void *make_src(const uint8_t *vals, size_t n)
 		}
 	}
 	return mem;
+}
+
+static void free_src(void *mem, size_t n)
+{
+	size_t i;
+	if (mem && kind == K_IDN) {
+		for (i = 0; i < n; i++) etraits->fini(((uint8_t *) mem) + i * esize);
+	}
+	free(mem);
 }
 
 static const char *name_of(const MPT_STRUCT(buffer) *b)
@@ -161,7 +229,11 @@ static void emit_all(const char *ret)
 		for (s = 0; s < n; s++) {
 			const uint8_t *p = ((const uint8_t *) (b + 1)) + s * esize;
 			long v;
-			if (kind_arr) {
+			if (kind == K_META) {
+				v = meta_index(*(MPT_INTERFACE(metatype) * const *) p);
+			} else if (kind == K_IDN) {
+				v = idn_index((const MPT_STRUCT(identifier) *) p);
+			} else if (kind_arr) {
 				v = inner_index(((const MPT_STRUCT(array) *) p)->_buf);
 			} else {
 				const struct elem *e = (const struct elem *) p;
@@ -191,7 +263,13 @@ static void emit_all(const char *ret)
 	j_arr_open("typs");
 	for (i = 0; i < nh; i++) j_item_str(name_of(arr[i]._buf));
 	j_arr_close();
-	if (kind_arr) {
+	if (kind == K_META) {
+		j_arr_open("irefs");
+		for (k = 1; k <= nv; k++) j_item_int(metas[k].refs);
+		j_arr_close();
+	} else if (kind == K_IDN) {
+		/* nothing countable */
+	} else if (kind_arr) {
 		j_arr_open("irefs");
 		for (k = 1; k <= nv; k++) {
 			MPT_STRUCT(bufferData) *bd = MPT_baseaddr(bufferData, inner[k], buf);
@@ -272,6 +350,7 @@ static void drv_step(struct cmd *c)
 		if (kind_arr) {
 			for (k = 1; k <= nv; k++) inner[k] = _mpt_buffer_alloc(8, 0);
 		}
+		for (k = 0; k <= MAXV; k++) { metas[k].mt._vptr = &hm_vptr; metas[k].refs = 1; }
 		_mpt_buffer_alloc_psize = g * (int) esize;   /* 0: library default */
 		answer(c, "ok", 0, 0, 0);
 		return;
@@ -371,14 +450,23 @@ static void drv_step(struct cmd *c)
 		drv_end();
 	}
 	fail_at = 0;
-	free(src);
+	free_src(src, dl);
 	free(data);
 }
 
 int main(int argc, char **argv)
 {
-	kind_arr = (argc > 1 && !strcmp(argv[1], "arr"));
-	if (kind_arr) {
+	kind = K_REC;
+	if (argc > 1 && !strcmp(argv[1], "arr")) kind = K_ARR;
+	if (argc > 1 && !strcmp(argv[1], "meta")) kind = K_META;
+	if (argc > 1 && !strcmp(argv[1], "idn")) kind = K_IDN;
+	if (kind == K_META) {
+		etraits = mpt_meta_reference_traits();
+		esize = sizeof(MPT_INTERFACE(metatype) *);
+	} else if (kind == K_IDN) {
+		etraits = mpt_identifier_traits();
+		esize = sizeof(MPT_STRUCT(identifier));
+	} else if (kind_arr) {
 		etraits = mpt_array_traits();
 		esize = sizeof(MPT_STRUCT(array));
 	} else {
